@@ -820,7 +820,7 @@ func gen(state bool) func(rng *rand.Rand, tier string) []string {
 		nwait, ngate := 0, 0
 		nasync := 0
 		as := func(s string) string {
-			if multi && nasync < 2 && rng.Intn(3) == 0 {
+			if multi && nasync < 3 && rng.Intn(2) == 0 {
 				nasync++
 				return "async " + s
 			}
@@ -1016,6 +1016,8 @@ func init() {
 			{"cfg state 2 0 0", "setctx 1 0", "setstate 1", "setsr 2", "settle", "setstate 3", "swap 5", "swap 2", "getstate", "settle", "exit old ctx", "quiesce", "getstate", "setsr 1", "exit old ctx", "quiesce"},
 			// D16 (open), state variant
 			{"cfg state 1 0 0", "setctx 1 0", "setsr 1", "setstate 1", "settle", "setstate 0", "setstate 2", "settle", "probe", "quiesce", "exit old ctx", "exit old ok", "quiesce"},
+			// D4: a state change must wake WaitExited (the inner container's broadcast, under the inner lock)
+			{"cfg state 1 0 0", "setsr 1", "setctx 1 0", "setstate 1", "settle", "waitexited 1", "waitexited 0", "settle", "setstate 0", "settle", "quiesce", "exit old ctx", "quiesce", "cancelw 1", "quiesce"},
 			// concurrent SetState / SetContext / exits (D4)
 			{"cfg state 0 0 1", "setsr 1", "setctx 1 0", "mode auto", "async setstate 1", "async setctx 2 0", "async setstate 2", "async setctx 1 1", "async setstate 3", "join", "quiesce", "getstate", "exit old ok", "quiesce"},
 		},
